@@ -132,6 +132,13 @@ impl<'ast> Visit<'ast> for AssignFinder {
                 }
                 visit::visit_expr(self, e);
             }
+            Expr::Reference(r) if r.mutability.is_some() => {
+                // `f(&mut x)` may assign x
+                if let Some(b) = Self::base(&r.expr) {
+                    self.names.push(b);
+                }
+                visit::visit_expr(self, e);
+            }
             Expr::Closure(_) => {}
             _ => visit::visit_expr(self, e),
         }
@@ -177,7 +184,7 @@ pub fn tr_block_value(cx: &mut Ctx, b: &Block, expected: Option<&Ty>) -> R<Tr> {
 }
 
 fn emit_return(cx: &Ctx, v: String) -> String {
-    let v = if cx.mut_self && cx.value_depth == 0 { format!("({}, self)", v) } else { v };
+    let v = if cx.mut_self && cx.value_depth == 0 { cx.with_outs(&v) } else { v };
     if cx.loop_ctx.is_empty() || cx.value_depth > 0 {
         v
     } else {
@@ -190,7 +197,7 @@ fn finish(cx: &mut Ctx, k: &Cont) -> R<Tr> {
         Cont::Value(t) => {
             let _ = t;
             if cx.mut_self && cx.value_depth == 0 && cx.loop_ctx.is_empty() {
-                return Ok(Tr::new("((), self)", Ty::Unit));
+                return Ok(Tr::new(cx.with_outs("()"), Ty::Unit));
             }
             Ok(Tr::new("()", Ty::Unit))
         }
@@ -302,6 +309,9 @@ pub fn tr_stmts(cx: &mut Ctx, stmts: &[Stmt], k: &Cont) -> R<Tr> {
         Stmt::Expr(e, semi) => {
             let is_last = rest.is_empty();
             // tail expression
+            if is_last && semi.is_none() && matches!(k, Cont::Value(Some(Ty::Unit))) && matches!(e, Expr::MethodCall(_)) {
+                return stmt_expr(cx, e, rest, k);
+            }
             if is_last && semi.is_none() {
                 if let Cont::LetBind(pat, declared, rest2, k2) = k {
                     if !matches!(e, Expr::Return(_) | Expr::Break(_) | Expr::Continue(_)) && !(matches!(e, Expr::Macro(m) if is_panic_macro(&m.mac))) {
@@ -328,7 +338,7 @@ pub fn tr_stmts(cx: &mut Ctx, stmts: &[Stmt], k: &Cont) -> R<Tr> {
                         let v = tr_expr(cx, e, t.as_ref())?;
                         let pre = cx.take_prelude();
                         if cx.mut_self && cx.value_depth == 0 && cx.loop_ctx.is_empty() {
-                            return Ok(Tr::new(format!("{}({}, self)", pre, v.val()), v.ty));
+                            return Ok(Tr::new(format!("{}{}", pre, cx.with_outs(&v.val())), v.ty));
                         }
                         if pre.is_empty() {
                             return Ok(v);
@@ -542,6 +552,16 @@ fn assign(cx: &mut Ctx, left: &Expr, newval: impl FnOnce(&mut Ctx, &Tr) -> R<Str
                 Expr::Path(p) if p.path.segments.len() == 1 => p.path.segments[0].ident.to_string(),
                 _ => return Err("assignment to complex place".into()),
             };
+            if base == "self" {
+                if let Some(Ty::Struct(sn)) = cx.tybind.get("Self").cloned() {
+                    if sn == "Data" {
+                        let i = tr_expr(cx, &ix.index, Some(&Ty::Int(IntK::Usize)))?;
+                        let cur = Tr::new(format!("(listGet self.f_0 {})", i.s), Ty::F64);
+                        let v = newval(cx, &cur)?;
+                        return Ok(("self".into(), format!("{{ self with f_0 := (listSet self.f_0 {} {}) }}", i.s, v)));
+                    }
+                }
+            }
             let (ln, ty) = cx.lookup(&base).ok_or("assignment to unknown")?;
             let el = match &ty {
                 Ty::List(t) => (**t).clone(),
@@ -668,7 +688,31 @@ fn stmt_expr(cx: &mut Ctx, e: &Expr, rest: &[Stmt], k: &Cont) -> R<Tr> {
         Expr::Macro(m) => stmt_macro(cx, &m.mac, rest, k),
         Expr::MethodCall(m) => {
             let n = m.method.to_string();
+            // `self.0.as_mut().swap(i, j)` on a tuple-struct field
             if n == "swap" && m.args.len() == 2 {
+                if let Expr::MethodCall(inner) = strip(&m.receiver) {
+                    if inner.method == "as_mut" {
+                        if let Expr::Field(f) = strip(&inner.receiver) {
+                            if let (Expr::Path(bp), Member::Unnamed(ix)) = (strip(&f.base), &f.member) {
+                                if bp.path.is_ident("self") {
+                                    let i = tr_expr(cx, &m.args[0], Some(&Ty::Int(IntK::Usize)))?;
+                                    let j = tr_expr(cx, &m.args[1], Some(&Ty::Int(IntK::Usize)))?;
+                                    let r = tr_stmts(cx, rest, k)?;
+                                    return Ok(Tr { s: format!("let self := {{ self with f_{ix} := (listSwap self.f_{ix} {} {}) }}\n{}", i.s, j.s, r.s, ix = ix.index), ty: r.ty, prop: r.prop });
+                                }
+                            }
+                        }
+                    }
+                }
+            }
+            let recv_is_local_list = match strip(&m.receiver) {
+                Expr::Path(p) if p.path.segments.len() == 1 => {
+                    let nm = p.path.segments[0].ident.to_string();
+                    matches!(cx.lookup(&nm), Some((_, Ty::List(_))))
+                }
+                _ => false,
+            };
+            if n == "swap" && m.args.len() == 2 && recv_is_local_list {
                 let base = match strip(&m.receiver) {
                     Expr::Path(p) if p.path.segments.len() == 1 => p.path.segments[0].ident.to_string(),
                     _ => return Err("swap on complex place".into()),
@@ -679,7 +723,7 @@ fn stmt_expr(cx: &mut Ctx, e: &Expr, rest: &[Stmt], k: &Cont) -> R<Tr> {
                 let r = tr_stmts(cx, rest, k)?;
                 return Ok(Tr { s: format!("let {} := (listSwap {} {} {})\n{}", ln, ln, i.s, j.s, r.s), ty: r.ty, prop: r.prop });
             }
-            if n == "push" && m.args.len() == 1 {
+            if n == "push" && m.args.len() == 1 && recv_is_local_list {
                 let base = match strip(&m.receiver) {
                     Expr::Path(p) if p.path.segments.len() == 1 => p.path.segments[0].ident.to_string(),
                     _ => return Err("push on complex place".into()),
@@ -693,13 +737,63 @@ fn stmt_expr(cx: &mut Ctx, e: &Expr, rest: &[Stmt], k: &Cont) -> R<Tr> {
                 let r = tr_stmts(cx, rest, k)?;
                 return Ok(Tr { s: format!("let {} := ({} ++ [{}])\n{}", ln, ln, v.val(), r.s), ty: r.ty, prop: r.prop });
             }
-            Err(format!("statement method call .{}", n))
+            if n == "sort_by" && m.args.len() == 1 && recv_is_local_list {
+                let base = match strip(&m.receiver) {
+                    Expr::Path(p) => p.path.segments[0].ident.to_string(),
+                    _ => unreachable!(),
+                };
+                let (ln, ty) = cx.lookup(&base).unwrap();
+                let el = match &ty {
+                    Ty::List(t) => (**t).clone(),
+                    _ => unreachable!(),
+                };
+                // closure `|a, b| A.partial_cmp(B).unwrap()` → stable merge sort by `A ≤ B`
+                let c = match strip(&m.args[0]) {
+                    Expr::Closure(c) => c,
+                    _ => return Err("sort_by with non-closure".into()),
+                };
+                let cbody: &Expr = match strip(&c.body) {
+                    Expr::Block(b) if b.block.stmts.len() == 1 => match &b.block.stmts[0] {
+                        Stmt::Expr(e, None) => e,
+                        _ => &c.body,
+                    },
+                    e => e,
+                };
+                let body = match strip(cbody) {
+                    Expr::MethodCall(u) if u.method == "unwrap" || u.method == "expect" => match strip(&u.receiver) {
+                        Expr::MethodCall(pc) if pc.method == "partial_cmp" => Some(((*pc.receiver).clone(), pc.args[0].clone())),
+                        _ => None,
+                    },
+                    Expr::MethodCall(pc) if pc.method == "total_cmp" => Some(((*pc.receiver).clone(), pc.args[0].clone())),
+                    _ => None,
+                };
+                let (ea, eb) = body.ok_or("sort_by comparator shape")?;
+                cx.push();
+                let pa = tr_pat(cx, &c.inputs[0], &el)?;
+                let pb = tr_pat(cx, &c.inputs[1], &el)?;
+                let a = tr_expr(cx, &ea, None);
+                let b = tr_expr(cx, &eb, None);
+                cx.pop();
+                let (a, b) = (a?, b?);
+                let r = tr_stmts(cx, rest, k)?;
+                return Ok(Tr { s: format!("let {ln} := (List.mergeSort {ln} (fun x_ y_ => match x_, y_ with | {pa}, {pb} => decide ({a} ≤ {b})))\n{r}", ln = ln, pa = pa, pb = pb, a = a.s, b = b.s, r = r.s), ty: r.ty, prop: r.prop });
+            }
+            // any other call evaluated for its effect (e.g. `self.swap(i, j)` with `&mut self`)
+            let v = tr_expr(cx, e, None)?;
+            let pre = cx.take_prelude();
+            if pre.is_empty() {
+                return Err(format!("statement method call .{} without effect", n));
+            }
+            let _ = v;
+            let r = tr_stmts(cx, rest, k)?;
+            Ok(Tr { s: format!("{}{}", pre, r.s), ty: r.ty, prop: r.prop })
         }
         Expr::Match(m) => stmt_match(cx, m, rest, k),
         Expr::Loop(l) => crate::loops::tr_loop(cx, crate::loops::LoopKind::Loop(&l.body), rest, k),
         Expr::While(w) => crate::loops::tr_loop(cx, crate::loops::LoopKind::While(&w.cond, &w.body), rest, k),
         Expr::ForLoop(f) => crate::loops::tr_loop(cx, crate::loops::LoopKind::For(&f.pat, &f.expr, &f.body), rest, k),
         Expr::Paren(p) => stmt_expr(cx, &p.expr, rest, k),
+        Expr::Tuple(t) if t.elems.is_empty() => tr_stmts(cx, rest, k),
         other => Err(format!("unsupported statement: {}", other.to_token_stream().to_string().chars().take(60).collect::<String>())),
     }
 }
